@@ -115,6 +115,8 @@ func c02JavaClass0(d string) string {
 			m = m[:40]
 		}
 		return "java:incompatible-types:" + m
+	case strings.Contains(msg, "has protected access in"):
+		return "java:protected-access"
 	case strings.Contains(msg, "is already defined"):
 		return "java:already-defined"
 	case strings.Contains(msg, "is public, should be declared in a file named"):
